@@ -168,12 +168,14 @@ Proof.
 Qed.
 
 (* ---- IPv4 (+ authentication header) ------------------------------------------------------ *)
-Definition lip4_rel (h : res (ip_headers * lax_ip_payload * option stop_error))
+Definition lip4_rel (s : slice) (h : res (ip_headers * lax_ip_payload * option stop_error))
   (r : res (lax_ip_slice * option stop_error)) : Prop :=
   match h, r with
   | Ok (ih, p, st), Ok (i, st') =>
       exists v, i = LIpV4 v /\ ih = IhV4 (lv4_header v) (lv4_auth v) /\ p = lv4_payload v /\
-        st = option_map (conv_ext_stop true (fun l => l)) st'
+        st = option_map (conv_ext_stop true (fun l => l)) st' /\
+        s_off s <= s_off (lipp_slice p) /\
+        (forall l ly, st = Some (ELen l, ly) -> le_src l = lipp_src p)
   | Err e, Err e' => e = e'
   | _, _ => False
   end.
@@ -188,9 +190,9 @@ Proof.
   rewrite subU_eq by lia. discriminate.
 Qed.
 
-Lemma lax_v4_tail header hl hp src inc :
-  bytes_ok (snd hp) -> 20 <= s_len header -> s_len header = hl ->
-  lip4_rel
+Lemma lax_v4_tail s header hl hp src inc :
+  bytes_ok (snd hp) -> 20 <= s_len header -> s_len header = hl -> s_off s <= s_off hp ->
+  lip4_rel s
     (let* proto := Ipv4HeaderSlice.protocol header in
      let* x := LaxIpv4Extensions.from_slice_lax proto hp in
      let '(auth, next_protocol, rest', stop) := x in
@@ -211,7 +213,7 @@ Lemma lax_v4_tail header hl hp src inc :
          | None => None
          end)).
 Proof.
-  intros Hok H20 Hhl. unfold LaxIpv4Slice.finish, LaxIpv4Extensions.from_slice_lax, LaxIpv4Exts.from_slice_lax.
+  intros Hok H20 Hhl Hs. unfold LaxIpv4Slice.finish, LaxIpv4Extensions.from_slice_lax, LaxIpv4Exts.from_slice_lax.
   destruct (v4_accessors header H20) as ((fr & Efr) & (pr & Epr) & _).
   rewrite Efr, Epr. cbn [bind]. rewrite (N.eqb_sym IPN_AUTH pr).
   destruct (pr =? IPN_AUTH) eqn:Ea.
@@ -220,22 +222,28 @@ Proof.
     + destruct Sh as (A12 & Ale & Aoff & Ath & _).
       rewrite subN_ok by lia. cbn [bind]. rewrite subU_rest by lia. cbn [bind].
       unfold IpAuthHeaderSlice.next_header. rdok a 0. rewrite Ath. cbn [bind]. rewrite ?Efr. cbn [bind].
-      unfold lip4_rel. eexists. split; [reflexivity|]. cbn [lv4_header lv4_auth lv4_payload option_map].
-      repeat split.
+      unfold lip4_rel. eexists. split; [reflexivity|]. cbn [lv4_header lv4_auth lv4_payload option_map lipp_slice lipp_src].
+      split; [reflexivity|]. split; [reflexivity|]. split; [reflexivity|].
+      split; [unfold s_off in *; cbn [fst]; lia|]. intros; discriminate.
     + rewrite ?Efr. cbn [bind]. unfold lip4_rel. eexists. split; [reflexivity|].
-      cbn [lv4_header lv4_auth lv4_payload option_map conv_ext_stop].
+      cbn [lv4_header lv4_auth lv4_payload option_map conv_ext_stop lipp_slice lipp_src].
       apply N.eqb_eq in Ea. subst pr. split; [reflexivity|]. split; [reflexivity|].
-      subst hl. destruct l as [r ln sr ly o]. reflexivity.
+      subst hl. destruct l as [r ln sr ly o]. split; [reflexivity|]. split; [exact Hs|].
+      intros l' ly' E. injection E as <- _. reflexivity.
     + rewrite ?Efr. cbn [bind]. unfold lip4_rel. eexists. split; [reflexivity|].
-      cbn [lv4_header lv4_auth lv4_payload option_map conv_ext_stop].
-      apply N.eqb_eq in Ea. subst pr. rewrite (Sc ce eq_refl). repeat split.
+      cbn [lv4_header lv4_auth lv4_payload option_map conv_ext_stop lipp_slice lipp_src].
+      apply N.eqb_eq in Ea. subst pr. rewrite (Sc ce eq_refl).
+      split; [reflexivity|]. split; [reflexivity|]. split; [reflexivity|]. split; [exact Hs|].
+      intros; discriminate.
   - cbn [bind]. rewrite ?Efr. cbn [bind]. unfold lip4_rel. eexists. split; [reflexivity|].
-    cbn [lv4_header lv4_auth lv4_payload option_map]. repeat split.
+    cbn [lv4_header lv4_auth lv4_payload option_map lipp_slice lipp_src].
+    split; [reflexivity|]. split; [reflexivity|]. split; [reflexivity|]. split; [exact Hs|].
+    intros; discriminate.
 Qed.
 
 Lemma lax_ip4_agree s b0 :
   bytes_ok (snd s) -> rd (snd s) 0 = Some b0 -> N.shiftr b0 4 = 4 -> 20 <= s_len s ->
-  lip4_rel (LaxIpHeaders.from_slice_lax s) (LaxIpSlice.from_slice s).
+  lip4_rel s (LaxIpHeaders.from_slice_lax s) (LaxIpSlice.from_slice s).
 Proof.
   intros Hok Eb V4 H20. unfold LaxIpHeaders.from_slice_lax, LaxIpSlice.from_slice.
   destruct (s_len s =? 0) eqn:E0; [lia|].
@@ -254,10 +262,71 @@ Proof.
   { intros k n _. cbn [snd]. apply bytes_ok_take. now apply bytes_ok_drop. }
   destruct (tl <? hl) eqn:Et.
   { rewrite subN_ok by lia. cbn [bind]. rewrite subU_eq by lia. cbn [bind].
-    apply lax_v4_tail; auto. apply Hsub. lia. }
+    apply lax_v4_tail; auto; [apply Hsub; lia|unfold s_off; cbn [fst]; lia]. }
   destruct (s_len s <? tl) eqn:Es.
   { rewrite subN_ok by lia. cbn [bind]. rewrite subU_eq by lia. cbn [bind].
-    apply lax_v4_tail; auto. apply Hsub. lia. }
+    apply lax_v4_tail; auto; [apply Hsub; lia|unfold s_off; cbn [fst]; lia]. }
   rewrite subN_ok by lia. cbn [bind]. rewrite subU_eq by lia. cbn [bind].
-  apply lax_v4_tail; auto. apply Hsub. lia.
+  apply lax_v4_tail; auto; [apply Hsub; lia|unfold s_off; cbn [fst]; lia].
+Qed.
+
+(* ---- whole packets: the bare-IP entry point, IPv4 ------------------------------------------ *)
+Definition lax_ip4_packet_rel (h : res lhpacket) (s : res lax_sliced_packet) : Prop :=
+  match h, s with
+  | Ok r, Ok sp =>
+      lh_link r = None /\ lsp_link sp = None /\ lh_exts r = [] /\ lsp_exts sp = [] /\
+      lh_stop r = lsp_stop_err sp /\
+      exists v, lsp_net sp = Some (LNtIpv4 v) /\
+        lh_net r = Some (HnIp (IhV4 (lv4_header v) (lv4_auth v))) /\
+        match lsp_transport sp with
+        | Some ts =>
+            exists t, lh_transport r = Some t /\
+              lconv_tr (lipp_incomplete (lv4_payload v)) ts = Ok (hview_tr t, lhview_payload (lh_payload r))
+        | None => lh_transport r = None /\ lh_payload r = LHpIp (lv4_payload v)
+        end
+  | Err e, Err e' => e = e'
+  | _, _ => False
+  end.
+
+Theorem lax_from_ip4_agree bs b0 :
+  bytes_ok bs -> rd bs 0 = Some b0 -> N.shiftr b0 4 = 4 -> 20 <= len bs ->
+  lax_ip4_packet_rel (LaxPacketHeaders.from_ip bs) (LaxSlicedPacket.from_ip bs).
+Proof.
+  intros Hok Eb V4 H20.
+  unfold LaxPacketHeaders.from_ip, LaxPacketHeaders.add_ip, LaxSlicedPacket.from_ip, parse_from_ip.
+  set (s := mk_slice bs).
+  pose proof (lax_ip4_agree s b0 Hok Eb V4 H20) as A. unfold lip4_rel in A.
+  destruct (LaxIpHeaders.from_slice_lax s) as [[[ih p] st]|e|b];
+    destruct (LaxIpSlice.from_slice s) as [[i st']|e'|b']; try contradiction; cbn [bind]; [|exact A].
+  destruct A as (v & -> & -> & -> & -> & Hoff & Hsrc).
+  cbn [LaxIpSlice.payload net_of_ip is_v4 lh_link lh_exts lh_transport lh_stop]. unfold ptr_diff. rewrite subN_ok by lia. cbn [bind].
+  destruct st' as [e|]; cbn [option_map].
+  - (* stopped in the authentication header *)
+    unfold slice_transport, has_stop. cbn [lc_result lsp_stop_err]. rewrite Bool.orb_true_r.
+    unfold lax_ip4_packet_rel, LaxPacketHeaders.with_stop.
+    cbn [lh_link lh_exts lh_net lh_transport lh_payload lh_stop lsp_link lsp_exts lsp_net lsp_transport lsp_stop_err].
+    repeat (split; [reflexivity|]). split.
+    + unfold LaxPacketHeaders.ip_stop.
+      destruct (conv_ext_stop true (fun l => l) e) as [[l|c] ly] eqn:Ec; cbn [fst snd]; [|reflexivity].
+      cbn [option_map] in Hsrc. rewrite Ec in Hsrc. specialize (Hsrc l ly eq_refl). destruct l as [r ln sr y o]. cbn in Hsrc. subst sr.
+      unfold le_add_offset, le_set_src. cbn. now rewrite N.add_0_r.
+    + eexists. split; [reflexivity|]. repeat split.
+  - rewrite N.add_0_l.
+    set (self1 := mkLH None [] (Some (HnIp (IhV4 (lv4_header v) (lv4_auth v)))) None (LHpIp (lv4_payload v)) None).
+    set (c := mkLaxCursor (s_off (lipp_slice (lv4_payload v)) - s_off s) LsSlice
+                (mkLaxSliced None [] (Some (LNtIpv4 v)) None None)).
+    pose proof (lax_transport_agree self1 (lv4_payload v) c eq_refl eq_refl) as T.
+    cbn [lc_offset c] in T. unfold ltr_rel in T.
+    destruct (LaxPacketHeaders.add_transport self1 (lv4_payload v) _) as [r|e|b];
+      destruct (slice_transport c (lv4_payload v)) as [sp|e'|b']; try contradiction.
+    destruct T as (T1 & T2 & T3 & T4 & T5 & T6 & T7).
+    unfold lax_ip4_packet_rel. rewrite T1, T2, T3, T4, T5, T6.
+    cbn [self1 c lc_result lh_link lh_exts lh_net lsp_link lsp_exts lsp_net].
+    repeat (split; [reflexivity|]).
+    destruct (lsp_transport sp) as [ts|].
+    + destruct T7 as (t & E1 & E2 & E3 & E4). split; [rewrite E3, E4; reflexivity|].
+      eexists. split; [reflexivity|]. split; [reflexivity|]. eexists. split; [exact E1|exact E2].
+    + destruct T7 as (E1 & E2 & E3). split.
+      * destruct (lsp_stop_err sp); [exact E3|rewrite E3; reflexivity].
+      * eexists. split; [reflexivity|]. split; [reflexivity|]. split; [exact E1|exact E2].
 Qed.
